@@ -399,10 +399,10 @@ where
         let H = weights * J.clone();
         let weighted_residuals = weighted_data - weights * model.eval()? * linear_coefficients;
         let total_parameter_count = model.parameter_count() + model.base_function_count();
-        let degrees_of_freedom = output_len - total_parameter_count;
         if output_len <= total_parameter_count {
             return Err(Error::Underdetermined);
         }
+        let degrees_of_freedom = output_len - total_parameter_count;
 
         let reduced_chi2 = weighted_residuals.norm_squared()
             / Model::ScalarType::from_usize(degrees_of_freedom)
